@@ -161,6 +161,9 @@ func checkTxJSON(tx *gobinlog.Transaction, rowsAlways bool) (key, msg string) {
 			return "txjson-table-name", fmt.Sprintf("%s.name = %s, want db %s table %s", path, c20show(o["name"]), c20q(src.Table.DbName), c20q(src.Table.TableName))
 		}
 		sql, hasSQL := o["sql"]
+		if hasSQL && src.Query.SQL == "" && (sql == nil || sql == interface{}("")) {
+			hasSQL = false // an empty member for "no statement text" says the same as no member
+		}
 		if hasSQL != (src.Query.SQL != "") {
 			return "txjson-sql-presence", fmt.Sprintf("%s: SQL %s, \"sql\" member present: %v", path, c20q(src.Query.SQL), hasSQL)
 		}
